@@ -95,6 +95,10 @@ func (fr *frame) get(key ssa.Value) value {
 		cell := zero(mustDeref(key.Type()))
 		if sv, ok := fr.i.sentinelGlobal(key); ok {
 			cell = sv
+		} else if key.Pkg != nil {
+			if text, ok := embedStrings[key.Pkg.Pkg.Path()+"."+key.Name()]; ok {
+				cell = text // a `//go:embed`ded string variable
+			}
 		}
 		fr.i.globals[key] = &cell
 		return &cell
